@@ -137,6 +137,9 @@ def run_case(case):
     bounds = sorted(set(firsts + comment_lines + [len(L.lines) + 1]))
     k = rng.randint(1, min(8, len(bounds)))
     where = sorted(rng.sample(bounds, k))
+    if rng.random() < 0.5:
+        # several directives in a row at one boundary; the boundary behind the last END included
+        where = sorted(where + [rng.choice(where + [bounds[-1]]) for _ in range(rng.randint(1, 3))])
     lines = list(L.lines)
     D = []
     for ln in reversed(where):
